@@ -189,7 +189,7 @@ class _TPyVal(Ty):
 
     def _lift(self, v):
         if v is None:
-            return Sym(C["VNone"], self)
+            return Sym(C["VNone"](), self)
         if isinstance(v, bool):
             return Sym(C["VBool"](z3.BoolVal(v)), self)
         if isinstance(v, int):
@@ -215,6 +215,9 @@ class _TPyVal(Ty):
 
     def is_none(self, term):
         return IS["VNone"](term)
+
+    def none_value(self):
+        return C["VNone"]()
 
     def isinstance_(self, term, classes):
         import collections
